@@ -85,3 +85,31 @@ def _C06():
             "real_stub": dict(REAL_STUB_PY, stub=REAL_STUB_PY["stub"] + [
                 "the link between writer and reader (pure function applying faults to the stored bytes)",
                 "clock (line-event counter), memory meter (tracemalloc)"])}
+
+
+RULE_ORDER = ("each run draws an acyclic definition set (constants over constants and enumerators, enums, typedefs, "
+              "structs, unions referring to each other) and renders it as isar XML in 3-8 permutations of its elements "
+              "(reverse dependency order, one definition moved to the end, swaps, random); distinct = distinct "
+              "(definition-graph shape digest, permutation digest) pairs; non-trivial = at least 3 definitions")
+
+
+def _C15():
+    from props import order
+    return {"arms": [Arm(order, "order", 9000, 400000, label="S-ORDER")], "level": "exploration", "rule": RULE_ORDER,
+            "assumptions": ASSUME_REF + [
+                "the dependency relation is computed from the schema AST by the harness (props/order.py), not from "
+                "prophyc's dependencies()", "isar renderings avoid greedy arrays and bytes (not expressible without a patch)",
+                "step clock budget 400000 + 4000 line events per input character"],
+            "real_stub": REAL_STUB_PY}
+
+
+def _C04():
+    from props import order
+    return {"arms": [Arm(order, "order", 6000, 300000, label="S-ORDER"), _hist("C04", 12000, 500000)],
+            "level": "exploration",
+            "rule": RULE_ORDER + "; second arm (S-HIST worlds): every struct/union of every prophy-language world is "
+                    "compared (prophyc model node and generated Python class vs reference layout) and every encoding of a "
+                    "fixed type must have exactly the static size",
+            "assumptions": ASSUME_REF + ["the C++ encoded_byte_size constant is compared in the C++ peer arm (C03/C05 "
+                                         "worlds); raw-codec sizeof/_Padder values are not observed (C08, not applicable)"],
+            "real_stub": REAL_STUB_PY}
